@@ -1,7 +1,7 @@
 (* C05 — Every privileged effect requires the governing privilege.  Property theorems only.
    handler_guards and registered are REGENERATED from internal/mobius/transaction_handlers.go on every run. *)
 From Coq Require Import List String NArith Bool.
-From Verif Require Import Base.Bytes Auth.Access Auth.AccessProofs Auth.GuardSpec Gen.Handlers Gen.AccessTables.
+From Verif Require Import Base.Bytes Auth.Access Auth.AccessProofs Auth.GuardSpec Auth.Batch Auth.BatchProofs Gen.Handlers Gen.AccessTables.
 Import ListNotations.
 
 Definition set_eqb (x y : list string) : bool :=
@@ -87,6 +87,33 @@ Example C05_paths_nonvacuous :
   dir_is W_UPLOAD [[100;101;115;116]; [46;46]; [85;112;108;111;97;100;115]] = true.        (* "dest", "..", "Uploads" *)
 Proof. vm_compute. repeat split. Qed.
 
+(* batched account edits (one UpdateUser transaction with several sub-records, possibly naming the same login):
+   for ALL bitmaps, tables and batches, every edit that is applied held the privilege governing the effect it has on
+   the table as the earlier edits of the batch left it (create / modify / delete), the resulting table is the
+   initial one changed by exactly those edits, logins no edit names are untouched, a refusal means the next edit
+   lacked its privilege, and with the three privileges held no batch is refused *)
+Theorem C05_batched_edits_each_hold_their_privilege :
+  forall b es t t' e, In (t', e) (applied b t es) -> IsSet b (governing_edit t' e) = true.
+Proof. exact applied_privileged. Qed.
+Theorem C05_batch_changes_exactly_the_privileged_edits :
+  forall b es t, fst (run_batch b t es) = fold_left apply_edit (map snd (applied b t es)) t /\
+                 (exists rest, es = map snd (applied b t es) ++ rest) /\
+                 forall l, (forall e, In e es -> edit_login e <> l) -> lookup (fst (run_batch b t es)) l = lookup t l.
+Proof. intros b es t. split; [apply run_is_applied|]. split; [apply applied_prefix|]. intros l. apply batch_frame. Qed.
+Theorem C05_batch_refused_iff_next_edit_lacks_privilege :
+  forall b es t, snd (run_batch b t es) = Refused <->
+    exists pre e post, es = pre ++ e :: post /\ pre = map snd (applied b t es) /\
+                       IsSet b (governing_edit (fold_left apply_edit pre t) e) = false.
+Proof. exact refused_iff. Qed.
+Theorem C05_batch_never_refused_when_held :
+  forall b, IsSet b ACCESS_CREATE_USER = true -> IsSet b ACCESS_DELETE_USER = true -> IsSet b ACCESS_MODIFY_USER = true ->
+    forall es t, snd (run_batch b t es) <> Refused.
+Proof. exact never_refused_when_held. Qed.
+Example C05_batch_nonvacuous :   (* create-only account: creating login 5 and then editing it again is refused *)
+  run_batch [0;2;0;0;0;0;0;0] [] [EUpsert 5 1; EUpsert 5 2] = ([(5, 1)]%N, Refused) /\
+  IsSet [0;2;0;0;0;0;0;0] ACCESS_CREATE_USER = true.
+Proof. vm_compute. split; reflexivity. Qed.
+
 Example C05_nonvacuous : permit [127;255;255;255;255;255;255;255] 3 = false /\ permit [128;0;0;0;0;0;0;0] 3 = true /\
   governing 16 = [1; 25]%nat.
 Proof. vm_compute. repeat split. Qed.
@@ -98,3 +125,7 @@ Print Assumptions C05_never_refused_when_held.
 Print Assumptions C05_dropbox_listing_needs_privilege.
 Print Assumptions C05_upload_elsewhere_needs_privilege.
 Print Assumptions C05_upload_folder_never_refused.
+Print Assumptions C05_batched_edits_each_hold_their_privilege.
+Print Assumptions C05_batch_changes_exactly_the_privileged_edits.
+Print Assumptions C05_batch_refused_iff_next_edit_lacks_privilege.
+Print Assumptions C05_batch_never_refused_when_held.
